@@ -37,6 +37,34 @@ else:
         return contextlib.nullcontext()
 
 
+def _concrete(x):
+    if not SYM:
+        return True
+    with NoTracing():  # under tracing type() of a proxy int reports `int`
+        return type(x) in (int, bool)
+
+
+def pick(x, lo, hi):
+    """Concretise a bounded symbolic int by explicit equality tests: exactly one path per value.
+    (crosshair's realize() revisits the same value on several paths: measured 4.5x for three ints.)"""
+    if _concrete(x):
+        return x
+    for v in range(lo, hi):
+        if x == v:
+            return v
+    return hi
+
+
+def pick_from(x, values):
+    if _concrete(x):
+        return x
+    values = list(values)
+    for v in values[:-1]:
+        if x == v:
+            return v
+    return values[-1]
+
+
 # ---- per-process counters (mutated only inside notrace()) -------------------------------
 COUNTS = {"paths": 0, "reached": 0}
 CEX = []  # list of {"args": [...], "why": str}
